@@ -1,4 +1,17 @@
-"""C08 — operations never modify their arguments; failed calls change nothing."""
+"""C08 — operations never modify their arguments; failed calls change nothing.
+
+Two ties between the Coq development and the code, on every generated history:
+  * VALUE level (mandatory): after every call the observable state of every live circuit is compared with its
+    state before the call (only the target may change, nothing if the call raised) and, at the end, with the
+    functional model (Model/World.v + the rewrite calls of Model/Rewrite.v).
+  * IDENTITY level: after every call the reference structure of the real objects (which entries of the
+    `_Circuit__circuit_spec` lists, recursively into Group.circuit_spec, are the same Python object, and whether
+    list objects / herald dict objects / the internal-modes list are shared between or within circuits) is compared
+    with the address structure of the reference-level heap model (Model/Heap.v, evaluated by Exec/RunC08.v on the
+    same program).  The implementation sharing MORE than the model (a cell the model holds to be separate is one
+    object in the implementation) is a disagreement; sharing LESS (an extra copy) is not.  Private attributes are
+    read defensively: if one is missing the identity comparison is skipped for that run and counted in the stats.
+"""
 from __future__ import annotations
 
 import copy
@@ -9,11 +22,21 @@ import numpy as np
 
 import core
 import circgen as cg
+from core import cn
 
 import lightworks as lw
 from lightworks import emulator
 
 OBSERVERS = ("simulate", "sample", "analyze", "reck", "display", "convert", "tomo")
+REWRITE_OPS = ("compress", "nonadj", "copyf")
+
+CIRC_ATTRS = ("_Circuit__circuit_spec", "_Circuit__in_heralds", "_Circuit__out_heralds",
+              "_Circuit__external_in_heralds", "_Circuit__external_out_heralds", "_Circuit__internal_modes")
+_MISSING = object()
+
+
+class IdentityUnavailable(Exception):
+    pass
 
 
 def _input_for(c, rng_seed):
@@ -83,24 +106,195 @@ def run_observer(pool, op):
         raise AssertionError("input State modified")
 
 
+def apply8(pool, op):
+    k = op[0]
+    if k == "compress":
+        pool[op[1]].compress_mode_swaps()
+    elif k == "nonadj":
+        pool[op[1]].remove_non_adjacent_bs()
+    elif k == "copyf":
+        pool[op[1]] = pool[op[2]].copy(freeze_parameters=True)
+    else:
+        cg.apply_op(pool, op)
+
+
+# ---------------------------------------------------------------- identity structure of the real objects
+def identity_structure(pool):
+    """Per live circuit: [cid, list, in, out, xin, xout, internal, entries]; an entry is [component] or, for a
+    group, [component, its list, heralds-in dict, heralds-out dict, [members]].  Objects are named by small
+    integers in order of first appearance (no addresses in the output)."""
+    names = {}
+    keep = []
+
+    def nm(obj):
+        keep.append(obj)
+        return names.setdefault(id(obj), len(names) + 1)
+
+    out = []
+    for cid, c in pool.items():
+        vals = [getattr(c, a, _MISSING) for a in CIRC_ATTRS]
+        if any(v is _MISSING for v in vals):
+            raise IdentityUnavailable("attribute " + CIRC_ATTRS[[v is _MISSING for v in vals].index(True)] + " not found")
+        if not isinstance(vals[0], list) or not all(isinstance(d, dict) for d in vals[1:5]) or not isinstance(vals[5], list):
+            raise IdentityUnavailable("a private attribute has an unexpected type")
+        entries = []
+        for s in vals[0]:
+            if type(s).__name__ == "Group":
+                sub = getattr(s, "circuit_spec", _MISSING)
+                her = getattr(s, "heralds", _MISSING)
+                if sub is _MISSING or not isinstance(sub, list) or not isinstance(her, dict) \
+                        or not isinstance(her.get("input"), dict) or not isinstance(her.get("output"), dict):
+                    raise IdentityUnavailable("Group without circuit_spec list / heralds dicts")
+                entries.append([nm(s), nm(sub), nm(her["input"]), nm(her["output"]), [nm(x) for x in sub]])
+            else:
+                entries.append([nm(s)])
+        out.append([cid] + [nm(v) for v in vals] + [entries])
+    return out
+
+
+def _slots(step):
+    sl = {}
+    for row in step:
+        cid = row[0]
+        for name, v in zip(("list", "in", "out", "xin", "xout", "internal"), row[1:7]):
+            sl[(cid, name)] = v
+        for k, e in enumerate(row[7]):
+            sl[(cid, "entry", k)] = e[0]
+            if len(e) > 1:
+                sl[(cid, "entry", k, "list")] = e[1]
+                sl[(cid, "entry", k, "heralds-in")] = e[2]
+                sl[(cid, "entry", k, "heralds-out")] = e[3]
+                for j, m in enumerate(e[4]):
+                    sl[(cid, "entry", k, "member", j)] = m
+    return sl
+
+
+def identity_diff(real_step, model_step):
+    """None | "shape" | message.  Alarm only when the implementation identifies two slots the model keeps apart."""
+    rs, ms = _slots(real_step), _slots(model_step)
+    if set(rs) != set(ms):
+        return "shape"
+    by_obj = {}
+    for slot, obj in rs.items():
+        by_obj.setdefault(obj, []).append(slot)
+    for obj, slots in by_obj.items():
+        if len(slots) < 2:
+            continue
+        addrs = {ms[s] for s in slots}
+        if len(addrs) > 1:
+            first = slots[0]
+            other = next(s for s in slots if ms[s] != ms[first])
+            return (f"the implementation holds ONE object at {list(first)} and {list(other)}; "
+                    f"the reference-level model holds two separate cells there")
+    return None
+
+
+# ---------------------------------------------------------------- generation
+def _extend_with_sharing(rng, prog, meta, tier):
+    """copy / + / rewrite calls on circuits of the program, followed by edits on both sides of the shared
+    structure and by additions of the results into a parent that already has ancillas."""
+    vis = dict(meta.get("vis", {}))
+    opn = dict(meta.get("opn", {}))
+    if not vis:
+        return
+    ids = sorted(vis)
+    nid = max(max(ids), max((o[1] for o in prog if o[0] in ("copy", "plus")), default=0)) + 1
+    parent = meta.get("last")
+    for o in prog:
+        if o[0] == "copy" and o[1] not in vis:
+            vis[o[1]], opn[o[1]] = vis[o[2]], opn[o[2]]
+
+    def prim(cid):
+        prog.append(cg.gen_primitive(rng, cid, vis[cid], bad=0.05))
+
+    def followup(a, b):
+        """edits after a and b came to share structure"""
+        for _ in range(rng.randint(1, 3)):
+            r = rng.random()
+            t = a if rng.random() < 0.5 else b
+            if r < 0.35:
+                prim(t)
+            elif r < 0.5:
+                m = rng.randrange(max(vis[t], 1))
+                prog.append(["herald", t, rng.choice([0, 1]), m, None if rng.random() < 0.6 else rng.randrange(max(vis[t], 1))])
+            elif r < 0.65:
+                prog.append(["compress", t])
+            elif r < 0.8:
+                prog.append(["nonadj", t])
+            elif r < 0.9:
+                prog.append(["unpack", t])
+            elif parent is not None and parent not in (a, b) and vis[parent] >= opn[t] > 0:
+                prog.append(["add", parent, t, rng.randint(0, vis[parent] - opn[t]), rng.random() < 0.4])
+                prim(parent)
+            else:
+                prim(t)
+
+    for _ in range(rng.randint(1, 3)):
+        r = rng.random()
+        if r < 0.3:
+            # fresh plain circuit, its copy, their sum
+            n = rng.randint(2, 4)
+            x, y, z = nid, nid + 1, nid + 2
+            nid += 3
+            prog.append(["new", x, n])
+            for c in (x, y, z):
+                vis[c], opn[c] = n, n
+            for _ in range(rng.randint(1, 3)):
+                prog.append(cg.gen_primitive(rng, x, n, kinds=["bs", "swaps", "swaps", "ps", "barrier"]))
+            prog.append(["copy", y, x])
+            if rng.random() < 0.5:
+                prim(y)
+            prog.append(["plus", z, x, y if rng.random() < 0.7 else x])
+            followup(z, x)
+            if rng.random() < 0.5:
+                followup(z, y)
+        elif r < 0.6:
+            src = rng.choice(ids)
+            d = nid
+            nid += 1
+            prog.append(["copyf" if rng.random() < 0.15 else "copy", d, src])
+            vis[d], opn[d] = vis[src], opn[src]
+            followup(d, src)
+        elif r < 0.8:
+            a = rng.choice(ids)
+            b = rng.choice([i for i in ids if vis[i] == vis[a]])
+            z = nid
+            nid += 1
+            prog.append(["plus", z, a, b])      # rejected when either side has heralds: the operands must stay as they were
+            vis[z], opn[z] = vis[a], vis[a]
+            followup(z, a)
+        else:
+            t = rng.choice(ids)
+            prog.append([rng.choice(["compress", "nonadj"]), t])
+            prim(t)
+
+
 class C08:
     ID = "C08"
-    RULE = ("random API histories over a pool of <= 8 circuits (tree programs with 20% malformed calls: out-of-range modes, invalid "
+    RULE = ("random API histories over a pool of <= 12 circuits (tree programs with 20% malformed calls: out-of-range modes, invalid "
             "values, duplicate heralds, incomplete swaps, oversize additions; the same circuit reused as an argument several times, "
-            "parents with ancillas inside spans) interleaved with observer calls (Simulator, Sampler, Analyzer, Reck().map, Display, "
-            "qiskit converter, state tomography); after EVERY call the observable state of EVERY live object is compared with its state "
-            "before the call (only the call's target may change; nothing if it raised) and with the model. Non-trivial = a history "
-            "with >= 1 rejected call and >= 1 accepted add whose argument is used again afterwards; distinct = distinct history JSON")
-    COQ_TARGETS = ["theories/Exec/RunCircuit.vo"]
+            "parents with ancillas inside spans; copy / + / compress_mode_swaps / remove_non_adjacent_bs / unpack_groups followed by "
+            "edits on both sides of the shared structure) interleaved with observer calls (Simulator, Sampler, Analyzer, Reck().map, "
+            "Display, qiskit converter, state tomography); after EVERY call the observable state of EVERY live object is compared with "
+            "its state before the call (only the call's target may change; nothing if it raised), the final states with the functional "
+            "model, and after every call the identity structure of the real objects with the addresses of the reference-level heap "
+            "model (alarm when the implementation shares more). Non-trivial = a history with >= 1 rejected call and >= 1 accepted add "
+            "whose argument is used again afterwards; distinct = distinct history JSON")
     CHUNK = 40
-    TRUSTED = ["Python floats vs exact rationals compared at 1e-9"]
-    ASSUMPTIONS = ["shared Parameter objects are excepted by design (not generated here; see C10)"]
+    TRUSTED = ["Python floats vs exact rationals compared at 1e-9",
+               "identity comparison: Python `is` on the objects behind the name-mangled private attributes of Circuit and on "
+               "Group.circuit_spec / Group.heralds; skipped (and counted) when such an attribute does not exist"]
+    ASSUMPTIONS = ["shared Parameter objects are excepted by design (not generated here; see C10)",
+                   "Barrier.modes, ModeSwaps.swaps and UnitaryMatrix.unitary are values inside a component cell in the heap model: "
+                   "the code only ever rebinds these fields, an in-place edit of such a sub-object would be seen by the value "
+                   "snapshots only"]
 
     def generate(self, rng, tier):
         n = 150 if tier == "quick" else 3000
         cases = []
         for i in range(n):
-            prog = cg.gen_tree_program(rng, tier, bad=0.2 if i % 2 else 0.05)
+            meta = {}
+            prog = cg.gen_tree_program(rng, tier, bad=0.2 if i % 2 else 0.05, meta=meta)
             # reuse arguments: repeat some adds, edit subs after adding
             adds = [o for o in prog if o[0] == "add"]
             if adds and rng.random() < 0.7:
@@ -108,11 +302,12 @@ class C08:
                 prog.append(list(a))
                 prog.append(cg.gen_primitive(rng, a[2], 2))
                 prog.append(list(a))
-            ids = sorted({o[1] for o in prog if o[0] in ("new", "unitary")})
+            if rng.random() < 0.75:
+                _extend_with_sharing(rng, prog, meta, tier)
             k = rng.randint(0, 4)
             for _ in range(k):
                 pos = rng.randint(1, len(prog))
-                defined = [o[1] for o in prog[:pos] if o[0] in ("new", "unitary", "copy", "plus")]
+                defined = [o[1] for o in prog[:pos] if o[0] in ("new", "unitary", "copy", "plus", "copyf")]
                 if defined:
                     kind = rng.choice(OBSERVERS if i % 5 == 0 else OBSERVERS[:5])
                     prog.insert(pos, [kind, rng.choice(defined), rng.randint(0, 99)])
@@ -125,6 +320,8 @@ class C08:
         outcomes = []
         fail = None
         rejected = 0
+        ident = []
+        ident_skipped = None
         shared0 = _shared_gate_snapshot()
         for op in prog:
             before = {cid: cg.snapshot(x) for cid, x in pool.items()}
@@ -140,7 +337,7 @@ class C08:
                 target = None
             else:
                 try:
-                    cg.apply_op(pool, op)
+                    apply8(pool, op)
                     out = {"ok": []}
                 except NotImplementedError:
                     out = {"err": "OtherError"}
@@ -150,6 +347,13 @@ class C08:
                 target = op[1] if "ok" in out else None
                 if "err" in out:
                     rejected += 1
+                if ident_skipped is None:
+                    try:
+                        ident.append(identity_structure(pool))
+                    except IdentityUnavailable as e:
+                        ident_skipped = str(e)
+                    except Exception as e:  # noqa: BLE001  (never let the optional comparison break the mandatory one)
+                        ident_skipped = f"{type(e).__name__}: {e}"
             if fail is None:
                 for cid, snap in before.items():
                     if cid == target:
@@ -163,19 +367,62 @@ class C08:
         if fail is None and _shared_gate_snapshot() != shared0:
             fail = "a module-level shared gate instance (converter / tomography mappings) was modified"
         world = [[cid, cg.snapshot(pool[cid])] for cid in pool]
-        return [outcomes, world, {"fail": fail, "rejected": rejected}]
+        return [outcomes, world, {"fail": fail, "rejected": rejected, "ident": None if ident_skipped else ident,
+                                  "identity_comparison": ("skipped: " + ident_skipped) if ident_skipped else "pending"}]
 
     def coq_header(self):
-        return cg.COQ_HEADER
+        return ("From Coq Require Import ZArith List.\nFrom Bignums Require Import BigQ.\n"
+                "From LW Require Import Base.Sx Base.Num Model.Circuit Model.World Model.Rewrite Exec.QNum Exec.RunCircuit "
+                "Exec.RunC08.\n")
 
     def coq_expr(self, c):
-        return cg.prog_to_coq([o for o in c["prog"] if o[0] not in OBSERVERS])
+        items = []
+        for o in c["prog"]:
+            if o[0] in OBSERVERS:
+                continue
+            if o[0] == "compress":
+                items.append(f"(OCompress {cn(o[1])})")
+            elif o[0] == "nonadj":
+                items.append(f"(ONonAdj {cn(o[1])})")
+            elif o[0] == "copyf":
+                items.append(f"(OCopyFrozen {cn(o[1])} {cn(o[2])})")
+            else:
+                items.append("(Base (" + cg.op_to_coq(o) + "))")
+        return "run_c08 " + core.clist(items)
 
     def decode(self, c, sx):
-        return cg.decode_world(sx)
+        outcomes, world = cg.decode_world(sx[:2])
+        return [outcomes, world, sx[2], sx[3]]
 
     def compare(self, c, a, b):
-        return core.approx_equal(a[:2], b)
+        d = core.approx_equal(a[:2], b[:2])
+        if d:
+            return d
+        if b[3] != 1:
+            return ("the reference-level heap model (Model/Heap.v) and the functional model (Model/World.v) disagree on this "
+                    "history: outcomes or circuit structure after some call differ")
+        info = a[2]
+        if info.get("ident") is None:
+            return None
+        real, model = info["ident"], b[2]
+        if len(real) != len(model):
+            info["identity_comparison"] = "skipped: number of recorded steps differs"
+            return None
+        steps = shape = 0
+        ops = [o for o in c["prog"] if o[0] not in OBSERVERS]
+        for k, (rs, ms) in enumerate(zip(real, model)):
+            r = identity_diff(rs, ms)
+            if r == "shape":
+                shape += 1
+            elif r:
+                info["identity_comparison"] = "disagreement"
+                return f"identity structure after call #{k} {ops[k]}: {r}"
+            else:
+                steps += 1
+        info["identity_comparison"] = f"compared: {steps} steps, {shape} steps with different spec shape skipped"
+        info["ident_steps"] = steps
+        info["ident_shape_skipped"] = shape
+        return None
 
     def oracle(self, c, obs):
         return obs[2]["fail"]
@@ -189,6 +436,8 @@ class C08:
     def stats(self, cases, recs):
         ops = Counter()
         errs = Counter()
+        ident = Counter()
+        steps = 0
         for r in recs:
             for o in r["case"]["prog"]:
                 ops[o[0]] += 1
@@ -196,12 +445,21 @@ class C08:
                 for o, out in zip([o for o in r["case"]["prog"] if o[0] not in OBSERVERS], r["impl"][0]):
                     if "err" in out:
                         errs[o[0] + ":" + out["err"]] += 1
-        return {"ops": dict(ops), "rejected": dict(errs)}
+                info = r["impl"][2]
+                ic = str(info.get("identity_comparison", "pending"))
+                ident["skipped" if ic.startswith("skipped") else ic.split(":")[0]] += 1
+                steps += info.get("ident_steps", 0)
+                ident["steps_with_different_shape"] += info.get("ident_shape_skipped", 0)
+        out = {"ops": dict(ops), "rejected": dict(errs), "identity_runs": dict(ident), "identity_steps_compared": steps}
+        if ident.get("skipped"):
+            out["identity_comparison"] = "skipped"
+        return out
 
     def slim(self, rec):
         # keep the per-call outcomes and the verdict, drop the world snapshots (matrices of every circuit)
         io = rec["impl"]
         if isinstance(io, list) and len(io) == 3:
+            io[2]["ident"] = None
             rec["impl"] = [io[0], [], io[2]]
         rec["model"] = None
 
@@ -210,7 +468,7 @@ class C08:
         for i in range(len(prog) - 1, -1, -1):
             d = copy.deepcopy(c)
             op = d["prog"][i]
-            if op[0] in ("new", "unitary"):
+            if op[0] in ("new", "unitary", "copy", "plus", "copyf"):
                 cid = op[1]
                 if any(o is not op and cid in o[1:4] for o in d["prog"] if o[0] not in ("unitary",) or o is op):
                     continue
